@@ -829,7 +829,7 @@ func c12Gen(t *rapid.T) c12Case {
 		Stable:  rapid.SampledFrom([]int{0, 1, 2, 4, 8, 16, 32, 48}).Draw(t, "stable"),
 		Servers: rapid.IntRange(1, 3).Draw(t, "servers"),
 	}
-	maxOps := 600
+	maxOps := 400
 	if verifkit.Thorough() {
 		maxOps = 2000
 	}
@@ -858,6 +858,6 @@ func c12Gen(t *rapid.T) c12Case {
 
 func TestVerif_C12(t *testing.T) {
 	verifkit.Check(t, "C12", "listing",
-		"scenario: 0-48 stable players and 1-3 servers; 1-6 writer goroutines (join via canRegisterConnection/registerConnection, put on / move between / take off server player lists, leave via connection close or Player.Disconnect - all through the real teardown path - and Register/Unregister of extra servers) against 1-6 reader goroutines cycling Players, PlayerCount, Servers, Players().Range/Len, PlayersToSlice and up to 2 DisconnectAll calls; 200-600 ops each (2000 thorough), GOMAXPROCS in {2,4,16}, run under the race detector. Oracle: no attributed race report, no runtime fatal, and every returned list has no duplicates and equals the registered set at some logical-clock stamp inside the call (counts within the bounds of the call window); listings taken after all writers finished must match exactly. non-trivial = at least one listing call was overlapped by a write (measured with the stamps)",
+		"scenario: 0-48 stable players and 1-3 servers; 1-6 writer goroutines (join via canRegisterConnection/registerConnection, put on / move between / take off server player lists, leave via connection close or Player.Disconnect - all through the real teardown path - and Register/Unregister of extra servers) against 1-6 reader goroutines cycling Players, PlayerCount, Servers, Players().Range/Len, PlayersToSlice and up to 2 DisconnectAll calls; 200-400 ops each (2000 thorough), GOMAXPROCS in {2,4,16}, run under the race detector. Oracle: no attributed race report, no runtime fatal, and every returned list has no duplicates and equals the registered set at some logical-clock stamp inside the call (counts within the bounds of the call window); listings taken after all writers finished must match exactly. non-trivial = at least one listing call was overlapped by a write (measured with the stamps)",
 		c12Gen, c12Run)
 }
